@@ -42,6 +42,7 @@ type ldScenario struct {
 	HGate      int      `json:"hgate"`      // 1 = the atomic deletion handler is a gate ("h.atomic"): user code inside the table computation
 	Stale      int      `json:"stale"`      // 1 = the preloaded entry is due for refresh when the race starts (the clock moved past its refresh time) and the
 	                                        // refresh calculator's reload hook is a gate ("rc.reload"): user code that runs while a reload is being installed
+	Bare       int      `json:"bare"`       // 1 = a plain cache: no size bound, no expiry, no deletion handlers (fast paths that exist only there)
 	Extra      int      `json:"extra"`      // 1 = the bulk loader fetches "the whole page": it also supplies the key of {1,2} it was not asked for
 }
 
@@ -192,6 +193,10 @@ func runLoadScenario(sc ldScenario) ldResult {
 				note(ldEvent{T: "hret", K: e.Key, V: e.Value, Err: e.Cause.String()})
 			}
 		},
+	}
+	if sc.Bare == 1 {
+		o.MaximumSize = 0
+		o.OnAtomicDeletion = nil
 	}
 	if sc.Refresh == 1 {
 		o.RefreshCalculator = RefreshWriting[int, int](time.Hour)
